@@ -364,6 +364,16 @@ def _build_cp_atom_payload(sequence, restrict, payload_form=False, interner=None
             return ()
         return (f(i[0].key, i[0].neg, i[0].pos),)
 
+    # a negated wildcard (-*, -foo_*) acts on whatever precedes it; the flag by
+    # flag collapsing below can't see through that, so leave everything up to
+    # the last one untouched and only collapse what follows it.
+    for idx in range(len(i) - 1, -1, -1):
+        if any(x == "*" or x.endswith("_*") for x in i[idx].neg):
+            head = tuple(f(x.key, x.neg, x.pos) for x in i[: idx + 1])
+            return head + _build_cp_atom_payload(
+                i[idx + 1 :], restrict, payload_form=payload_form, interner=interner
+            )
+
     i = reversed(i)
 
     for data in i:
